@@ -8,9 +8,14 @@ DRV = 'drv_c06'
 
 REGISTRY = {
     'id': 'C06',
-    'text': 'Lean theorems: the enzymatic span builder equals the set specification for every n, site list, missed-cleavage bound and '
-            'length bounds (mem_buildEnzymatic); the hand-written model of spans.py/digest is tied to /repo by exhaustive correspondence '
-            '(n<=5 quick, n<=7 thorough) and the implementation is compared with the Lean set specification through the driver',
+    'text': 'Lean theorems (all n, all site lists incl. unsorted/duplicated, all mc, min/max length or None; no size bound): '
+            'mem_/nodup_ for build_non_enzymatic/left_semi/right_semi/enzymatic spans; shortcut_iff_nonSpecific; '
+            'mem_buildSpans (build_spans returns exactly the specified set: non-specific, enzymatic and semi-specific case incl. the '
+            'grouped semi builders with their sort/groupby/next-shorter-parent de-duplication), nodup_buildSpans, value_is_inside, '
+            'mem_/sorted_/nodup_digestSpans (partial digestion adds (0,n,0)); domain hypotheses 0<=n, sites in [0,n], min_len>=1 shown '
+            'necessary by decide-proved witnesses; protease regex table theorems (Props/C06Regex). The hand-written model of '
+            'spans.py/digest is tied to /repo by exhaustive correspondence (n<=5 quick, n<=7 thorough) and the implementation is '
+            'compared with the Lean set specification through the driver; sequential-vs-simultaneous is checked by the oracle only',
     'note': 'trusted: Lean kernel, axioms propext/Classical.choice/Quot.sound, the correspondence harness, regex->sites (outside the '
             'model, compared with an independent reading of each named rule)',
     'technique': 'Lean 4 proof about executable model + differential correspondence',
@@ -60,6 +65,11 @@ def run(chk):
     from .. import translate_proteases
     prot_table, unmodelled = translate_proteases.translate(chk)
     chk.lean_build(['PeptVerif.Props.C06', 'PeptVerif.Props.C06Regex'], DRV)
+    if tier == 'thorough':
+        chk.leanchecker(['PeptVerif.Props.C06', 'PeptVerif.Lemmas.SpansDigest', 'PeptVerif.Lemmas.SpansNodup',
+                         'PeptVerif.Lemmas.SpansSemi', 'PeptVerif.Lemmas.SpansEnz', 'PeptVerif.Lemmas.SpansGroup',
+                         'PeptVerif.Lemmas.SpansSort', 'PeptVerif.Lemmas.SpansBasic', 'PeptVerif.Lemmas.Spans',
+                         'PeptVerif.Spec.Spans', 'PeptVerif.Model.Spans'])
     if chk.lean_problems:
         # name the table entries that differ from the hand-typed reference (witness for proteases_match_reference)
         try:
